@@ -156,6 +156,14 @@ def check_case(case):
                 recs.append(dict(signature="executed-job-set-differs",
                                  observed=dict(missing=sorted(want - got)[:6], extra=sorted(got - want)[:6]),
                                  expected="every job of the workflow executed exactly once"))
+        if case.get("rerun") and case.get("worker") != "debug":
+            # defect model F-C15-1: with rerun=True over a complete cache the asynchronous loop
+            # takes the *stale result file of the previous submission* for "predecessor done"
+            # (NodeExecution.update_status -> Job.done reads the cache) until the re-submitted
+            # upstream job has removed it; a downstream job can start in that window
+            for r in recs:
+                if r["signature"] == "started-before-consumed-job-finished":
+                    r["signature"] += ":stale-result-of-previous-submission-under-rerun"
         # de-duplicate by signature
         seen, out = set(), []
         for r in recs:
